@@ -28,6 +28,8 @@ Definition ecase_model_ok_r (c : ecase) (r : presult) : bool :=
 (* the implementation's own output: status in 400..599, a complete well-formed response
    carrying X-Forwarder-Error, Content-Length framing, nothing after the body *)
 Definition ecase_prop_ok_r (c : ecase) (r : presult) : bool :=
+  (* the statement's mapping: a connection failure is answered 502, a connect time-out 504, whatever else the error carries *)
+  match f_operr (e_feat c) with Some false => e_code c =? 502 | Some true => e_code c =? 504 | None => true end &&
   in_error_range (e_code c) && is_complete r && (pstatus r =? e_code c) && (pmajor r =? 1) &&
   has_header error_header r && (pframing r =? 1) && match prest r with [] => true | _ => false end.
 
